@@ -33,6 +33,9 @@ pub struct CodecSc {
     /// human-readable origin of the case (sweep coordinates / mutation list)
     #[serde(default)]
     pub note: String,
+    /// run with a tracing subscriber that enables every span and event
+    #[serde(default)]
+    pub trace: bool,
 }
 
 fn res_class(r: &Result<Result<Option<insim::Packet>, insim::Error>, String>) -> String {
@@ -234,7 +237,7 @@ fn as_stream(sc: &CodecSc, imp: Imp) -> StreamScenario {
         flushes: vec![],
         buffered: false,
         gate_calls: vec![],
-        trace: false,
+        trace: sc.trace,
         inbound: sc.stream.clone(),
         reads: sc.segs.iter().map(|n| ReadEv::Data((*n).max(1))).collect(),
         writes: vec![],
@@ -275,7 +278,9 @@ const QUICK_VALUES: [u8; 10] = [0, 1, 5, 9, 0x1f, 0x40, 0x7f, 0x80, 0xfe, 0xff];
 
 /// multi-byte patterns written over a frame at every position (text escapes, codepage markers,
 /// UTF-8 sequences, version syntax): the crashing inputs of text decoders are rarely single bytes
-const PATTERNS: [&[u8]; 14] = [
+const PATTERNS: [&[u8]; 22] = [
+    // domain dictionary: built-in vehicle codes and track codes, NUL-terminated as on the wire
+    b"XFG\x00", b"FZ5\x00", b"BF1\x00", b"UF1\x00", b"MRT\x00", b"BL1\x00", b"AS1R", b"FE2X",
     b"x^J", b"^J", b"^^", b"^", b"1^L^", b"^8x", b"\xC3\xA9", b"0.7\xC3\xA9", b"0.7A\xC3\xA9", b"\xE2\x82\xAC", b"\xF0\x9F\x98\x80",
     b"\xFF\xFE", b"9\xC3", b"^\xC3\xA9",
 ];
@@ -381,6 +386,7 @@ impl Prop for C04 {
         s.a + s.b + s.c + s.d + s.e
     }
     fn sweep_case(&self, tier: Tier, idx: u64) -> CodecSc {
+        let orig_idx = idx;
         let s = sweeps(tier);
         if idx < s.a {
             let fill = if idx & 1 == 0 { 0x00 } else { 0xFF };
@@ -397,6 +403,7 @@ impl Prop for C04 {
                 stream: f,
                 segs: if idx % 3 == 0 { vec![2, 1, 1] } else { vec![] },
                 note: format!("header sweep: size byte {:#04x}, type {}, body fill {:#04x}", sz, ty, fill),
+                trace: orig_idx % 16 == 5,
             };
         }
         let idx = idx - s.a;
@@ -414,6 +421,7 @@ impl Prop for C04 {
                 stream: f,
                 segs: vec![],
                 note: format!("substitution sweep: frame of type {} ({} bytes), byte {} := {:#04x}", base[1], base.len(), pos, val),
+                trace: orig_idx % 16 == 5,
             };
         }
         let idx = idx - s.b;
@@ -452,6 +460,7 @@ impl Prop for C04 {
                 stream: f,
                 segs: vec![],
                 note: format!("pair sweep: frame of type {} ({} bytes), byte {} := {:#04x}, byte {} := {:#04x}", base[1], base.len(), 2 + i, va, 2 + j, vb),
+                trace: orig_idx % 16 == 5,
             };
         }
         if idx >= s.c {
@@ -473,6 +482,7 @@ impl Prop for C04 {
                 stream: f,
                 segs: vec![],
                 note: format!("pattern sweep: frame of type {} ({} bytes), bytes {}.. := {}", base[1], base.len(), pos, hex::enc(pat)),
+                trace: orig_idx % 16 == 5,
             };
         }
         let bi = s.c_offsets.partition_point(|o| *o <= idx) - 1;
@@ -486,6 +496,7 @@ impl Prop for C04 {
             stream: f,
             segs: vec![cut],
             note: format!("truncation sweep: frame of type {} ({} bytes) cut after {} bytes, then valid frames", base[1], base.len(), cut),
+            trace: orig_idx % 16 == 5,
         }
     }
     fn sweep_note(&self, tier: Tier) -> Value {
@@ -588,12 +599,16 @@ impl Prop for C04 {
             stream,
             segs,
             note: notes.join("; "),
+            trace: rng.chance(1, 8),
         }
     }
 
     fn execute(&self, sc: &CodecSc) -> RunReport {
         let mut rep = RunReport::default();
-        let cr = run_codec(sc);
+        let cr = crate::tracer::with_tracing(sc.trace, || run_codec(sc));
+        if sc.trace {
+            rep.probe("runs_with_trace_subscriber");
+        }
         let mut h = Fnv::default();
         h.u64(cr.hash);
         rep.signature = cr.sig;
@@ -711,8 +726,18 @@ impl Prop for C04 {
         c
     }
 
+    fn repro_variants(&self, sc: &CodecSc) -> Vec<CodecSc> {
+        if sc.trace {
+            vec![]
+        } else {
+            let mut v = sc.clone();
+            v.trace = true;
+            vec![v]
+        }
+    }
+
     fn rule(&self) -> String {
-        "Three enumerated single-fault spaces (every (size byte, type byte) header pair x both modes x two body fills; every byte position of one frame per packet kind x substitute values; every truncation point of those frames followed by valid frames) plus seeded multi-fault sessions (bit flips, substituted / dropped / duplicated bytes, inserted garbage, corrupted size bytes, truncation, pure noise) under random segmentation. Each case is delivered in segments into one long-lived receive buffer and the public decoder is called until it asks for more; the invariants of the property are evaluated after every call; the same stream then runs through both real connections (must return without panicking within the transport-call budget). Non-trivial = at least one fault or more than one segment; distinct by the sequence of (buffer situation, frame size class) per decoder call.".into()
+        "Five enumerated fault spaces (every (size byte, type byte) header pair x both modes x two body fills; every byte position of one frame per packet kind x substitute values; every truncation point of those frames followed by valid frames; multi-byte text / dictionary patterns at every body position; every pair of body positions of short frames x enumerant-range value pairs) plus seeded multi-fault sessions (bit flips, substituted / dropped / duplicated bytes, inserted garbage, corrupted size bytes, truncation, pure noise) under random segmentation. Each case is delivered in segments into one long-lived receive buffer and the public decoder is called until it asks for more; the invariants of the property are evaluated after every call; the same stream then runs through both real connections (must return without panicking within the transport-call budget). One case in 8 (seeded) / 16 (sweeps) runs with a thread-scoped tracing subscriber that enables every span and event. Non-trivial = at least one fault or more than one segment; distinct by the sequence of (buffer situation, frame size class) per decoder call.".into()
     }
     fn assumptions(&self) -> Vec<String> {
         vec![
@@ -734,6 +759,7 @@ impl Prop for C04 {
             "decode_error_then_continue",
             "connection_reports_framing_error",
             "same_codec_other_buffer",
+            "runs_with_trace_subscriber",
         ]
     }
 }
